@@ -67,7 +67,7 @@ class C09(Check):
         quick = tier == "quick"
         sinks = ["out", "err"]
         # (i) small grid, observed order attached
-        for rep in range(1 if quick else 6):
+        for rep in range(1 if quick else 12):
             for sink in sinks:
                 for n in (2, 3, 5, 8):
                     for dist in "zsm":
@@ -75,12 +75,12 @@ class C09(Check):
                             counts = [rng.randint(1, 6) for _ in range(n)]
                             yield "%s %s %s %s %d ord" % (sink, csv(counts), dist, mode, rng.randint(0, 99999)), "grid-small-ord"
         # (ii) contention: many records, long payloads
-        for rep in range(1 if quick else 4):
+        for rep in range(1 if quick else 10):
             for sink in sinks:
                 for n in (2, 4, 8):
                     for dist in "mlx":
                         for mode in "ny":
-                            hi = 120 if quick else rng.choice([200, 600, 2000 if dist == "m" else 500])
+                            hi = 150 if quick else rng.choice([200, 600, 2000 if dist == "m" else 800])
                             counts = [rng.randint(hi // 3, hi) for _ in range(n)]
                             yield "%s %s %s %s %d" % (sink, csv(counts), dist, mode, rng.randint(0, 99999)), "contention"
         # (iii) uneven: idle threads, one busy thread, dwell with several threads
@@ -90,8 +90,13 @@ class C09(Check):
                 counts = [rng.choice([0, 1, 2, 30]) for _ in range(n)]
                 yield "%s %s %s %s %d ord" % (sink, csv(counts), rng.choice("zsmx"), rng.choice("nyd"), rng.randint(0, 99999)), "uneven-ord"
         if not quick:
-            # (iv) the same kinds on the ThreadSanitizer build
-            for rep in range(3):
+            # (iv) the upper end of the design's range: 2000 records per thread, payloads up to 4096 bytes
+            for sink in sinks:
+                yield "%s %s l n %d" % (sink, csv([2000] * 4), rng.randint(0, 99999)), "huge"
+                yield "%s %s m y %d" % (sink, csv([2000] * 8), rng.randint(0, 99999)), "huge"
+                yield "%s %s l y %d" % (sink, csv([2000] * 8), rng.randint(0, 99999)), "huge"
+            # (v) the same kinds on the ThreadSanitizer build
+            for rep in range(8):
                 for sink in sinks:
                     for n in (2, 3, 8):
                         for dist in "zsml":
